@@ -1,7 +1,7 @@
 (** C12 — Sharding: deterministic, order-independent routing with minimal
     disruption.  Statements only; proofs in Sharding/Rendezvous*.v. *)
 From Coq Require Import List NArith Lia Permutation.
-From BBS Require Import Common.Sx Common.ListX Generated.Consts
+From BBS Require Import Common.Sx Common.SxFactsMA Common.ListX Generated.Consts
      Sharding.Rendezvous Sharding.RendezvousArith Sharding.RendezvousProofs
      Sharding.MonSilentSel Run.R12 Run.R12Proofs.
 Import ListNotations.
